@@ -232,6 +232,14 @@ def step (line : String) : String :=
     match parseRat? x, parseInt? p with
     | some x, some p => showRat (pyRound x p)
     | _, _ => "bad-op"
+  | ["count", pat, sq] =>
+    match parsePat? pat, Wire.unesc sq with
+    | some p, some sq => toString (p.count sq)
+    | _, _ => "bad-op"
+  | ["builtin", sq] =>
+    match Wire.unesc sq with
+    | some sq => toString (waterPat.count sq) ++ "," ++ toString (ammoniaPat.count sq)
+    | none => "bad-op"
   | ["consts"] => showRat waterLossValue ++ "," ++ showRat ammoniaLossValue ++ "," ++
       (match waterPat, ammoniaPat with
        | .cls a, .cls b => String.ofList a ++ "," ++ String.ofList b
